@@ -170,6 +170,82 @@ def spawn_defers(e: Engine, rep: Report, rule: str, pools: Set[str]):
     return holder_ok
 
 
+LOCK = 'queued_lock'
+
+
+def _lock_acquire(n) -> bool:
+    """CFG node that takes the timetable lock and may wait for it"""
+    if n.kind == 'with_enter':
+        ce = getattr(n.ast, 'context_expr', None)
+        return ce is not None and ast.unparse(ce) == 'self.' + LOCK
+    if n.kind == 'call' and isinstance(n.ast.func, ast.Attribute) and \
+            n.ast.func.attr == 'acquire' and \
+            ast.unparse(n.ast.func.value) == 'self.' + LOCK:
+        a = n.ast.args
+        nonblocking = (a and isinstance(a[0], ast.Constant) and
+                       a[0].value is False) or any(
+            k.arg == 'blocking' and isinstance(k.value, ast.Constant) and
+            k.value.value is False for k in n.ast.keywords)
+        return not nonblocking
+    return False
+
+
+def _lock_release(n) -> bool:
+    if n.kind == 'with_exit':
+        ce = getattr(n.ast, 'context_expr', None)
+        return ce is not None and ast.unparse(ce) == 'self.' + LOCK
+    return n.kind == 'call' and isinstance(n.ast.func, ast.Attribute) and \
+        n.ast.func.attr == 'release' and \
+        ast.unparse(n.ast.func.value) == 'self.' + LOCK
+
+
+def lock_edges(e: Engine, pools: Set[str], hs):
+    from .. import dataflow
+    out = []
+    c = common.merged_class(e, QUEUE)
+    held_by_slot = {m for _, m, _, _ in hs}
+    # lock -> W: a slot is requested on a path on which the lock is held
+    for mname, m in sorted(c.methods.items()):
+        if LOCK not in ast.unparse(m.node):
+            continue
+        ctx = e.method_ctx(QUEUE, mname)
+        g = e.build(ctx, inline=e.inline_same_self(deny=ACQ), max_depth=6)
+        acqs = [n for n in g.nodes if _lock_acquire(n)]
+        if not acqs:
+            continue
+
+        def step(n, label, st):
+            if _lock_acquire(n) and not isinstance(label, tuple):
+                return True
+            if _lock_release(n):
+                return False
+            return st
+        IN = dataflow.typestate(g, False, step)
+        for n in g.nodes:
+            if n.kind == 'call' and _acq_name(n.ast) and \
+                    _which(n.ast) in pools and True in (IN.get(n.id) or ()):
+                chain = tuple(fr.ctx.func.name for fr in n.frame.chain())
+                out.append((LOCK, _which(n.ast), mname, chain, n.ast,
+                            n.frame.ctx.func))
+    # W -> lock: a slot holder waits for the lock
+    for w, mname, spawner, call in hs:
+        ctx = e.method_ctx(QUEUE, mname)
+        g = e.build(ctx, inline=e.inline_same_self(deny=ACQ), max_depth=8)
+        for n in g.nodes:
+            if _lock_acquire(n):
+                chain = tuple(fr.ctx.func.name for fr in n.frame.chain())
+                site = n.ast if isinstance(n.ast, ast.Call) else \
+                    n.ast.context_expr
+                out.append((w, LOCK, mname, chain, site, n.frame.ctx.func))
+    seen, uniq = set(), []
+    for t in out:
+        k = (t[0], t[1], t[2], t[3], ast.unparse(t[4]))
+        if k not in seen:
+            seen.add(k)
+            uniq.append(t)
+    return uniq
+
+
 def run(e: Engine, rep: Report, rule: str):
     pools = pool_names(e)
     if len(pools) < 2:
@@ -199,6 +275,13 @@ def run(e: Engine, rep: Report, rule: str):
                 continue
             seen.add(k)
             edges.append((w, w2, mname, chain, site, fn))
+    # the timetable lock is one more resource of the same kind: a greenlet
+    # that blocks in queued_lock.acquire() / `with queued_lock` while in a
+    # pool slot holds the slot and waits for the lock (W -> lock); one that
+    # asks for a slot while it has the lock holds the lock and waits for
+    # the slot (lock -> W; _pool_spawn does wait there: the scheduler and
+    # flush() are not slot holders)
+    edges += lock_edges(e, pools, hs)
     graph: Dict[str, Set[str]] = {}
     for p, q, *_ in edges:
         graph.setdefault(p, set()).add(q)
@@ -219,8 +302,11 @@ def run(e: Engine, rep: Report, rule: str):
         rep.evaluations += 1
         on_cycle = p == q or reaches(q, p)
         via = ' -> '.join(chain)
-        text = '%s holds a %s slot and requests a %s slot via %s: %s' % (
-            mname, p, q, via, ' '.join(ast.unparse(site).split())[:70])
+        def res(x):
+            return 'the timetable lock' if x == LOCK else 'a %s slot' % x
+        text = '%s holds %s and requests %s via %s: %s' % (
+            mname, res(p), res(q), via,
+            ' '.join(ast.unparse(site).split())[:70])
         if on_cycle:
             cyc = '%s -> %s' % (p, q) if p == q else \
                 '%s -> %s -> ... -> %s' % (p, q, p)
